@@ -5,6 +5,7 @@ import itertools
 from hypothesis import strategies as st
 
 from vlib import harness, gen_iso, codecs_, refcodec
+from vlib.strat import uniform
 from vlib.harness import exc_sig
 from cardutil import iso8583
 from props import c01
@@ -76,14 +77,14 @@ def raw_carriers(draw, config, codec, msg):
     carriers = refcodec.pds_carrier_bits(config)
     if not carriers:
         return msg
-    tags = draw(st.lists(st.integers(0, 9999), min_size=0, max_size=10, unique=True))
+    tags = draw(st.lists(uniform(0, 9999), min_size=0, max_size=10, unique=True))
     use = draw(st.lists(st.sampled_from(carriers), min_size=0, max_size=len(carriers), unique=True))
     if not use or not tags:
         return msg
     buckets = {b: '' for b in use}
     for t in tags:
         b = draw(st.sampled_from(use))
-        n = draw(st.one_of(st.sampled_from([0, 1, 7, 40]), st.integers(0, 80)))
+        n = draw(st.one_of(st.sampled_from([0, 1, 7, 40]), uniform(0, 80)))
         v = draw(gen_iso.tiled_text(codec, n))
         item = '%04d%03d%s' % (t, len(v), v)
         if len(buckets[b]) + len(item) <= 999:
